@@ -745,7 +745,7 @@ def main():
             todo = cases()
             done = 0
             for c in todo:
-                if time.time() - B.t0 > budget:
+                if B.spent() > budget:
                     break
                 runLog.setVerbosity("error")
                 nontrivial = RUN[c["part"]](c)
